@@ -89,7 +89,7 @@ CHECKS["C12"] = dict(
     technique="bounded symbolic execution of clang LLVM IR (unsigned-wrap traps on), SMT: integer emission with quotient/remainder abstraction (z3/cvc5 NIA) and bit-vector emission at reduced width",
     text="At full 64-bit width and for ALL inputs under the documented preconditions: add_mod, sub_mod, half_mod_odd return the exact residue with no intermediate wrap; decompose(n) = (s, d) with n == d<<s, d odd "
          "(unwind 64 + unwinding assertion); mul_mod: one inductive step (recursive call replaced by its contract): call-site precondition, strict decrease, no wrap/div-by-zero, result < n, result formula, "
-         "and a*b == result + Q*n with a witness Q; the same step bit-precisely at W=5/6 bits without hints; is_perfect_square(n) is false and trap-free for ALL 64-bit odd n that are non-residues mod 8 or mod 3/5/7 (Newton loop unwound 5 quick / 12 thorough, unwinding is a precondition); gcd(a,b) at 6 bits (quick) / 8 bits (thorough) of the re-interpreted IR is the greatest common divisor for ALL a,b; find_prime_factor(n) at full width is the least prime factor for ALL 1 < n < 2^12 (2^16 thorough; trial-division phase, unwound with assertion); jacobi_symbol at 5 (6) bits equals an independent table for ALL signed a and odd n; thorough: pow_mod at 4 bits == base^exp mod n by repeated multiplication, miller_rabin at 4 bits (no wrap) and 5 bits == the definition, with mul_mod recursion inlined. Factorisation/primality read-outs for adversarial numbers (all base-2 strong pseudoprimes below 2^21 and a dense tail, Carmichael numbers, squares that wrap, 64-bit semiprimes) and find_prime_factor on inputs chosen per path through the function (trial hit, early exit, prime beyond the table, Pollard rho returning a prime / a composite divisor with one or more re-splits / needing a parameter retry) and the canonical factorisation type of mag<N>() for structured N (all powers of 2,3,5,6,7,10,12,60,100,1000,1024,3600 below 2^64, factorials, primorials, 1..130, 2^k +/- 1, smooth numbers) are closed compile-time facts.",
+         "and a*b == result + Q*n with a witness Q; the same step bit-precisely at W=5/6 bits without hints; is_perfect_square(n) is false and trap-free for ALL 64-bit odd n that are non-residues mod 8 or mod 3/5/7 (Newton loop unwound 5 quick / 12 thorough, unwinding is a precondition); gcd(a,b) at 6 bits (quick) / 8 bits (thorough) of the re-interpreted IR is the greatest common divisor for ALL a,b; find_prime_factor(n) at full width is the least prime factor for ALL 1 < n < 2^12 (2^16 thorough; trial-division phase, unwound with assertion); jacobi_symbol at 5 (6) bits equals an independent table for ALL signed a and odd n; thorough: pow_mod at 4 bits == base^exp mod n by repeated multiplication, miller_rabin at 4 bits (no wrap) and 5 bits == the definition, with mul_mod recursion inlined. Factorisation/primality read-outs for adversarial numbers (all base-2 strong pseudoprimes below 2^21 and a dense tail, Carmichael numbers, squares that wrap, 64-bit semiprimes, the largest primes below every 2^k (k = 33..64) whose first Selfridge parameter has magnitude >= 17, one per sign) and find_prime_factor on inputs chosen per path through the function (trial hit, early exit, prime beyond the table, Pollard rho returning a prime / a composite divisor with one or more re-splits / needing a parameter retry) and the canonical factorisation type of mag<N>() for structured N (all powers of 2,3,5,6,7,10,12,60,100,1000,1024,3600 below 2^64, factorials, primorials, 1..130, 2^k +/- 1, smooth numbers) are closed compile-time facts.",
     note=TB + "; primality/factor-finder exactness for every 64-bit n, 64-bit pow_mod, gcd, jacobi, miller_rabin, strong Lucas and Pollard rho are NOT claimed (outside bounded symbolic execution); reduced-width results are about the re-interpreted IR and are flagged as such in evidence.")
 CHECKS["C14"] = dict(
     category="translation_validation",
@@ -103,7 +103,7 @@ CHECKS["C17"] = dict(
     technique="solver equivalence (SMT over clang LLVM IR) of Au chrono-interop kernels with pure std::chrono reference kernels in the same TU; closed mapping facts vs model",
     text="For Rep in {int32,int64,float,double} x 9 periods and ALL counts: duration -> quantity -> duration is the identity bit-for-bit (implicit and as_chrono_duration), as_quantity has the count in seconds x Period; "
          "mixed duration/quantity comparisons, + and - equal the std::chrono computation whenever that computation does not trap (32-bit: operands in range); is_convertible<duration,Q> equals that of the corresponding quantity and the policy model; the C++20 calendar durations (days, weeks, months, years) are lowered at -std=c++20: round trips, unit == seconds x Period, "
-         "same duration type back, value in seconds == count x Period for ALL counts.",
+         "same duration type back, value in seconds == count x Period for ALL counts; implicit Quantity -> duration conversions that widen the rep and refine the period (4 period pairs x 4 rep pairs) equal chrono's own duration -> duration conversion for ALL counts whose product fits the destination.",
     note=TB + "; libstdc++ chrono as shipped; NaN counts excluded for <= and >= (libstdc++ defines a<=b as !(b<a)); periods enumerated.")
 CHECKS["C11"] = dict(
     category="model_checking",
